@@ -34,9 +34,10 @@ Inductive case :=
 (* feat = [ f0 max bracket / prefix-keyword nesting; f1 longest run of consecutive comments;
             f2 non-ASCII character inside a quoted string or a text parameter (0/1);
             f3 number of binary-operator characters and AND/OR/UNION/JOIN keywords (chain length);
-            f4 a Decimal parameter with scale >= 39 (0/1); f5 an INSERT / UPDATE is present (0/1);
-            f6 function mask: 1 LPAD/RPAD/REPEAT/SPACE, 2 DATE_FORMAT/TIME_FORMAT/STRFTIME;
-            f7 a string literal whose whole content is one double quote (0/1) ] *)
+            f4 a Decimal parameter with scale >= 39 or < 0 (0/1); f5 an INSERT / UPDATE is present (0/1);
+            f6 function mask: 1 LPAD/RPAD/REPEAT/SPACE, 2 DATE_FORMAT/TIME_FORMAT/STRFTIME, 4 FORMAT;
+            f7 a string literal whose whole content is one double quote (0/1);
+            f8 a LIMIT / OFFSET literal >= 2^63 (0/1) ] *)
 
 (* ---------------------------------------------------------------- comparisons *)
 Definition tok_eqb (a b : tok) : bool :=
@@ -83,6 +84,7 @@ Definition lit_out_eqb (a b : lit_out) : bool :=
   match a, b with
   | LitBytes x, LitBytes y => zl_eqb x y
   | LitNum x, LitNum y => x =? y
+  | LitClass COther, LitErr => true   (* COther = outcome decided by the unmodelled std float parser: Ok or Err *)
   | LitClass x, LitClass y => lclass_eqb x y
   | LitOther, LitOther => true
   | LitErr, LitErr => true
@@ -90,7 +92,7 @@ Definition lit_out_eqb (a b : lit_out) : bool :=
   | _, _ => false
   end.
 
-(* does the model reproduce the implementation on this case? *)
+(* does the model (first argument of lit_out_eqb) reproduce the implementation on this case? *)
 Definition model_agrees (c : case) : bool :=
   match c with
   | Lex s o => lex_out_eqb (model_lex s) o
@@ -125,17 +127,22 @@ Definition known_class (c : case) : Z :=
       | APanic file cls =>
           if (file =? 1) && (cls =? 1) && (fnth feat 2 =? 1) then 5          (* literal.rs char boundary, non-ASCII text *)
           else if (file =? 45) && (cls =? 4) && (fnth feat 5 =? 1) then 6    (* src/records builder, a write statement *)
-          else if (cls =? 3) && (fnth feat 4 =? 1) then 7                    (* Decimal parameter scale >= 39 *)
+          else if (cls =? 3) && (fnth feat 4 =? 1) then 7                    (* Decimal parameter, scale >= 39 or < 0 *)
           else if (cls =? 7) && (Z.land (fnth feat 6) 1 =? 1) then 8         (* LPAD/RPAD/REPEAT/SPACE capacity overflow *)
           else if (file =? 11) && (cls =? 1) && (Z.land (fnth feat 6) 2 =? 2) && (fnth feat 2 =? 1) then 9
-                                                                             (* datetime.rs char boundary in a *_FORMAT call *)
+                                                                             (* datetime.rs char boundary, x_FORMAT call *)
           else if (file =? 14) && (cls =? 2) && (fnth feat 7 =? 1) && (fnth feat 5 =? 1) then 10
                                                                              (* convert.rs: JSON text that is one double quote *)
+          else if (file =? 9) && (cls =? 0) && (Z.land (fnth feat 6) 4 =? 4) then 13
+                                                                             (* string.rs FORMAT: precision out of range *)
+          else if (file =? 42) && (cls =? 3) && (fnth feat 8 =? 1) then 14   (* planner: LIMIT + OFFSET overflow *)
           else 0
       | AAbort =>
           if (1000 <=? fnth feat 0) || (1000 <=? fnth feat 3) then 11        (* parser / planner recursion *)
           else if 10000 <=? fnth feat 1 then 12                              (* lexer recursion over comments *)
+          else if Z.land (fnth feat 6) 1 =? 1 then 8                         (* REPEAT / SPACE / RPAD: memory exhausted *)
           else 0
+      | ATimeout => if Z.land (fnth feat 6) 1 =? 1 then 8 else 0             (* RPAD: unbounded loop *)
       | _ => 0
       end
   end.
